@@ -22,13 +22,17 @@ ASSUMPTIONS = [
 ]
 COMPONENTS = c04.COMPONENTS
 
-WORDS = ["pan", "eks", "wye", "zee", "a b", "x,y", "q\"r", "", "0x1F", "-1.5e3", "long" * 12, "\u00fc\u00f1\u00ee", "tab\there", "semi;colon", "eq=ual", "pipe|bar", "#hash", "back\\slash"]
+WORDS = ["pan", "eks", "wye", "zee", "a b", "x,y", "q\"r", "", "0x1F", "-1.5e3", "long" * 12, "\u00fc\u00f1\u00ee", "tab\there", "semi;colon", "eq=ual", "pipe|bar", "#hash", "back\\slash",
+         "C:\\Users\\", "trail\\", "\\", "a\\tb\\", "\\\\", "\\n\\"]
 
 
 def records(r, n, safe):
     recs = []
-    nf = r.randint(1, 5)
-    names = ["a", "b", "c", "d", "e"][:nf]
+    nf = r.choice([1, 2, 3, 4, 5, 5, 9, 12])
+    names = ["a", "b", "c", "d", "e", "f", "g", "h", "i", "j", "k", "l"][:nf]
+    if r.chance(0.15) and nf > 1:
+        # repeated field names (deduplicated by default; kept with --no-dedupe-field-names)
+        names = [r.choice(names[:max(1, nf // 2)]) if r.chance(0.5) else nm for nm in names]
     for i in range(n):
         rec = []
         for nm in names:
@@ -74,6 +78,8 @@ def make_doc(r):
                 flags += ["--csv-trim-leading-space"]
             elif opt == "dedupe":
                 flags += ["--no-dedupe-field-names"]
+        if len(set(k for k, _ in recs[0])) < len(recs[0]) and "--no-dedupe-field-names" not in flags and r.chance(0.6):
+            flags += ["--no-dedupe-field-names"]
         hdr = [k for k, _ in recs[0]]
         lines = [sep.join(hdr)] + [sep.join(csvq(v, sep) for _, v in rec) for rec in recs]
         if "--pass-comments" in flags or "--skip-comments" in flags:
@@ -91,7 +97,8 @@ def make_doc(r):
             text = text[:-1]
     elif fmt == "tsv":
         flags = ["--itsv"]
-        enc = lambda s: s.replace("\\", "\\\\").replace("\t", "\\t").replace("\n", "\\n")
+        raw_bs = r.chance(0.3)  # backslashes left as they are: a lone backslash is data in TSV
+        enc = lambda s: (s if raw_bs else s.replace("\\", "\\\\")).replace("\t", "\\t").replace("\n", "\\n")
         text = "\t".join(k for k, _ in recs[0]) + "\n" + "".join("\t".join(enc(v) for _, v in rec) + "\n" for rec in recs)
     elif fmt in ("json", "jsonl"):
         flags = ["--ijson"] if fmt == "json" else ["--ijsonl"]
@@ -117,6 +124,8 @@ def make_doc(r):
                 ifs, ips = ";", ":"
             if r.chance(0.3):
                 flags += ["--irs", r.choice([";\n", "\r\n", "|"])]
+        if len(set(k for k, _ in recs[0])) < len(recs[0]) and r.chance(0.6):
+            flags = flags + ["--no-dedupe-field-names"]
         irs = flags[flags.index("--irs") + 1] if "--irs" in flags else "\n"
         text = "".join(ifs.join("%s%s%s" % (k, ips, v) for k, v in rec) + irs for rec in recs)
     elif fmt in ("nidx", "nidx_opts"):
